@@ -413,6 +413,8 @@ func C14_Unwrap() {
 func C14_Gen() {
 	ps := GenFailing()
 	p := ps[vf.Choice("prog", len(ps))]
+	// the compiler iterates Go maps (source map): both iteration orders the engine offers
+	vf.MapOrder(vf.Choice("maporder", 2))
 	s := tengo.NewScript([]byte(p.Src))
 	_ = s.Add("a", vf.Int64("a"))
 	_ = s.Add("b", vf.Int64("b"))
@@ -428,7 +430,7 @@ func C14_Gen() {
 		return
 	}
 	msg := rerr.Error()
-	vf.Assert(contains(msg, "invalid operation: int + undefined"), "the failure is the failing statement's: "+p.Name+": "+msg)
+	vf.Assert(contains(msg, p.WantMsg), "the failure is the failing statement's: "+p.Name+": "+msg)
 	files, lines := parseTrace(msg)
 	want := ""
 	for _, w := range p.WantLines {
